@@ -23,7 +23,7 @@ func TestC34(t *testing.T) {
 	r.Require("epoch_changes", r.N(300, 4000))
 	r.Require("effect@approveCandidate", r.N(100, 1500))
 	r.Require("effect@blackNode", r.N(30, 400))
-	r.Require("effect@whiteNode", r.N(10, 150))
+	r.Require("effect@whiteNode", r.N(8, 120))
 	r.Require("ok@quitNode", r.N(100, 1500))
 	r.Require("failed@quitNode", r.N(20, 300))
 	r.Require("failed@blackNode", r.N(20, 300))
